@@ -40,3 +40,59 @@ package contracts
 //@   ensures !fdopen[fd] && closecnt[fd] == old(closecnt[fd]) + 1
 //@   ensures forall x int :: x != fd ==> fdopen[x] == old(fdopen[x]) && closecnt[x] == old(closecnt[x])
 //@   modifies fdopen, closecnt
+//@
+//@ extern syscall.Socket
+//@   params domain typ proto
+//@   results fd err
+//@   note socket(2): on success a descriptor number that was not open before, now owned by the caller
+//@   ensures err == nil ==> fd >= 0 && !old(fdopen[fd]) && fdopen[fd] && closecnt[fd] == old(closecnt[fd])
+//@   ensures err != nil ==> fd == -1 && fdopen[fd] == old(fdopen[fd])
+//@   ensures forall x int :: x != fd ==> fdopen[x] == old(fdopen[x])
+//@   modifies fdopen
+//@
+//@ extern syscall.Accept
+//@   params lfd
+//@   results nfd sa err
+//@   note accept(2): on success a fresh descriptor owned by the caller
+//@   ensures err == nil ==> nfd >= 0 && !old(fdopen[nfd]) && fdopen[nfd]
+//@   ensures err != nil ==> nfd == -1 && fdopen[nfd] == old(fdopen[nfd])
+//@   ensures forall x int :: x != nfd ==> fdopen[x] == old(fdopen[x])
+//@   modifies fdopen
+//@
+//@ extern syscall.SetNonblock
+//@   params fd nonblocking
+//@   results err
+//@
+//@ extern os.NewSyscallError
+//@   params syscall err
+//@   ensures (err != nil) == (result != nil)
+//@
+//@ extern (*os.File).Close
+//@   params f
+//@   results err
+//@   note closes the descriptor the file owns; calling it when that number was already closed through another handle is a double close
+//@   requires fdopen[f.gfd]
+//@   ensures !fdopen[f.gfd] && closecnt[f.gfd] == old(closecnt[f.gfd]) + 1
+//@   ensures forall x int :: x != f.gfd ==> fdopen[x] == old(fdopen[x]) && closecnt[x] == old(closecnt[x])
+//@   modifies fdopen, closecnt
+//@
+//@ extern (*os.File).Fd
+//@   params f
+//@   ensures result == f.gfd
+//@
+//@ extern (*net.TCPListener).File
+//@   params l
+//@   results f err
+//@   note dup(2) of the listener's descriptor into a fresh *os.File that owns the new number
+//@   ensures err == nil ==> f != nil && fresh(f) && f.gfd >= 3 && !old(fdopen[f.gfd]) && fdopen[f.gfd]
+//@   ensures err != nil ==> f == nil
+//@   ensures forall x int :: (err != nil || x != f.gfd) ==> fdopen[x] == old(fdopen[x])
+//@   modifies fdopen
+//@
+//@ extern (*net.UnixListener).File
+//@   params l
+//@   results f err
+//@   ensures err == nil ==> f != nil && fresh(f) && f.gfd >= 3 && !old(fdopen[f.gfd]) && fdopen[f.gfd]
+//@   ensures err != nil ==> f == nil
+//@   ensures forall x int :: (err != nil || x != f.gfd) ==> fdopen[x] == old(fdopen[x])
+//@   modifies fdopen
